@@ -107,3 +107,43 @@ func VH_C18_delete() {
 	_ = err
 	_ = pan
 }
+
+// VH_C18_blocked_recipient_by_name: the recipient may be given as an RNS name. Whatever spelling the
+// message uses, a sender the resolved account has blocked cannot deliver, and a delivered notification sits
+// in the resolved account's inbox.
+func VH_C18_blocked_recipient_by_name() {
+	zzverif.OpenStore("rns")
+	zzverif.WFKey("rns", "Names", "Names/value/", "$Name", ".", "$Tld", "/")
+	zzverif.WFAddr("Names", "Value")
+	k, srv := zzKeeper()
+	h := zzverif.NondetRange("height", 1, 1<<40)
+	ctx := zzverif.Ctx(h, zzverif.NondetTime("blocktime"), 0)
+	blocker, blocked := zzverif.NondetAddr("blocker"), zzverif.NondetAddr("blocked")
+	zzverif.Deliver(func() error {
+		_, e := srv.BlockSenders(sdk.WrapSDKContext(ctx), &types.MsgBlockSenders{Creator: blocker, ToBlock: []string{blocked}})
+		return e
+	})
+	// the sender is any string the message validation accepts as the signer's address (bech32 decoding
+	// accepts more than one spelling of an account); blocking is a matter of accounts, not of spellings
+	to, from := zzverif.NondetString("to"), zzverif.NondetString("from")
+	fromAcc, ferr := sdk.AccAddressFromBech32(from)
+	zzverif.Assume(ferr == nil) // ValidateBasic
+	addr, rerr := k.rns.Resolve(ctx, to)
+	zzverif.Assume(rerr == nil)
+	wasBlocked := k.IsBlocked(ctx, addr.String(), fromAcc.String())
+	err, pan := zzverif.Deliver(func() error {
+		_, e := srv.CreateNotification(sdk.WrapSDKContext(ctx), &types.MsgCreateNotification{Creator: from, To: to, Contents: zzverif.NondetString("contents"), PrivateContents: []byte{}})
+		return e
+	})
+	ok := zzverif.Ok(err, pan)
+	if wasBlocked {
+		zzverif.Cover("C18/blocked-sender-tries")
+	}
+	zzverif.Assert(!(ok && wasBlocked), "C18/blocked-sender-cannot-deliver-under-any-spelling-of-the-recipient")
+	if ok {
+		zzverif.Cover("C18/delivered-by-name-or-address")
+		_, found := k.GetNotification(ctx, addr.String(), from, ctx.BlockTime().UnixMicro())
+		_, found2 := k.GetNotification(ctx, addr.String(), fromAcc.String(), ctx.BlockTime().UnixMicro())
+		zzverif.Assert(found || found2, "C18/delivered-notification-is-in-the-resolved-inbox")
+	}
+}
